@@ -204,6 +204,20 @@ def check_package(spec, fmt, level):
                 bad("to_str:compressed-garbage", "to_str of a compressed envelope does not round-trip")
         except Exception:  # noqa: BLE001
             bad("to_str:compressed-garbage", "to_str returned a string for a compressed envelope that from_str cannot read")
+    # the same Package object encoded again after its (mutable) contents changed
+    if fmt == 63 and (spec[0] or spec[1]):
+        try:
+            if spec[0]:
+                m0 = p.modules[0]
+                m0[m0.root].metadata["later"] = ["é", 1]
+            else:
+                p.extensions.append(extensions()[(spec[1][0] + 1) % 3][1]())
+            now = docs_of(p)
+            again = docs_of(Package.from_bytes(p.to_bytes(cfg)))
+            if not _same_docs(again, now):
+                bad("second-encode-stale", "a second to_bytes() of the same Package after changing its contents does not carry the change")
+        except Exception as e:  # noqa: BLE001
+            bad("second-encode-raised", f"{type(e).__name__}: {str(e)[:150]}")
     return fails, skipped
 
 
